@@ -99,6 +99,7 @@ class Model(object):
         self.kinds = {}     # id(cid) -> definition kind
         self.age = {}
         self.orphan = set()
+        self.keep = []      # strong references: the tables above are keyed by id(), which must never be reused
 
     def refs(self, t, out):
         if t[0] == 'ref':
@@ -204,6 +205,8 @@ def _execute(case, res):
         k = op[0]
         res.nops += 1
         res.log.append([k])
+        if d is not None:
+            m.keep.extend(c for c in d.components if not any(c is x for x in m.keep[-40:]))
         if k == 'new':
             d = w.new_data(op[1], op[2], op[3], cat=False, coords=op[4], special=op[5])
             for c in d.main_components:
